@@ -301,7 +301,28 @@ def span_arithmetic(ctx, rule):
     starts = [x for x in adds if x[2][-2:] == ["slice", "0"] and x[3][-2:] == ["subslice", "0"]]
     ends = [x for x in adds if x[2][-2:] == ["slice", "0"] and x[3][-2:] == ["subslice", "1"]]
     key = "span-bounds"
+    span_problem = None
     if len(starts) == 1 and len(ends) == 1:
+        # the highlighted slice is exactly source[start .. end] with these two sums — not an end chosen among several
+        def plain_(e_):
+            return ("binop", e_[1][:-len("WithOverflow")], e_[2], e_[3]) if e_[0] == "binop" and e_[1].endswith("WithOverflow") else e_
+        s_e = S.norm(plain_(sy.rvalue(starts[0][1]["rv"])))
+        e_e = S.norm(plain_(sy.rvalue(ends[0][1]["rv"])))
+        seen = 0
+        for bi_, t_ in hb.calls():
+            if not U.callee_is(t_, "Index::index") or len(t_["args"]) != 2:
+                continue
+            rng = S.strip_refs(sy.operand(t_["args"][1]))
+            if rng[0] == "agg" and rng[2].endswith("Range::Range") and len(rng[3]) == 2 and S.norm(rng[3][0]) == s_e:
+                seen += 1
+                if S.norm(rng[3][1]) != e_e:
+                    span_problem = "the highlighted slice ends at `%s`, not at word.slice.0 + subslice.1" % S.show(rng[3][1], hb)[:90]
+        if seen == 0:
+            span_problem = "no slice source[start .. end] starting at word.slice.0 + subslice.0 is copied"
+    if len(starts) == 1 and len(ends) == 1 and span_problem:
+        ctx.fail(rule, key, where(hb, ends[0][0], ends[0][1]), "span bounds: %s" % span_problem,
+                 {"witness": "query 'universe ' highlights the whole word [university]: ten characters for eight typed"})
+    elif len(starts) == 1 and len(ends) == 1:
         ctx.ok(rule, key, where(hb, starts[0][0], starts[0][1]), "a span is [word.slice.0 + subslice.0, word.slice.0 + subslice.1)",
                nontrivial=True)
     else:
